@@ -1177,7 +1177,7 @@ def run_impl(case):
                 check("nsm", _try(lambda: from_n3(dtext)))
                 text = save_text
         raw = _raw_from_n3(text)
-        if k == "lit" and not isinstance(raw, Exception) and not _same(raw, t, exact_lang=False) and not _infnan(t):
+        if k == "lit" and not isinstance(raw, Exception) and not _same(raw, t, exact_lang=False) and not _respelt(t):
             # with normalisation switched off the reader must give back exactly the term
             V("n3-from_n3", f"{t!r}: n3() text {text!r} read by from_n3 with NORMALIZE_LITERALS=False gives {raw!r}", i)
         if k == "lit" or (k == "iri" and _absolute(s) and not any(ord(c) <= 0x20 for c in s)):
@@ -1209,6 +1209,15 @@ def _infnan(t):
     except ValueError:
         return False
     return v != v or v in (float("inf"), float("-inf"))
+
+
+def _respelt(t):
+    """the INF / NaN respelling of `_literal_n3` changes the text of this literal: it is a float infinity / NaN of xsd:float /
+    double / decimal spelled with `inf` / `Infinity` / `nan` (the canonical `INF`, `-INF`, `NaN` are left alone)"""
+    if not _infnan(t):
+        return False
+    s = str(t)
+    return "nan" in s if float(t) != float(t) else ("inf" in s or "Infinity" in s)
 
 
 def _text_in_scope(t):
@@ -1683,7 +1692,7 @@ def _explain(case, result):
         elif tag == "n3-sparql" and inv and all(isinstance(t, Literal) and _U_ESC.search(str(t)) for t in inv):
             out.append("K2")
         elif (tag == "n3-sparql" or (tag in ("n3-from_n3", "n3-turtle", "n3-nsm") and case.get("env") == "nonorm")) \
-                and inv and all(isinstance(t, Literal) and _infnan(t) for t in inv) and "raised" not in v:
+                and inv and all(isinstance(t, Literal) and _respelt(t) for t in inv) and "raised" not in v:
             out.append("K5")   # readers that keep lexical forms: the SPARQL parser, or any reader with NORMALIZE_LITERALS off
         elif tag in _ORDER_TAGS and any(_is_nan_lit(t) for t in inv):
             out.append("K3")
